@@ -112,6 +112,12 @@ def _worker_init(modname, tag):
     private_tmpdir(tag)
     import faulthandler
     faulthandler.enable()
+    try:
+        import resource
+        lim = int(os.environ.get('VERIF_WORKER_AS_GB', '6')) << 30
+        resource.setrlimit(resource.RLIMIT_AS, (lim, lim))
+    except Exception:
+        pass
 
 
 def _worker_run(modname, shard, tier, seed):
